@@ -175,7 +175,8 @@ int main(int argc, char **argv)
 		if (dir == NULL)
 			goto out;
 
-		ret = scan_directory(&sqfs.fs, dir, 0, NULL);
+		ret = scan_directory(&sqfs.fs, dir, 0, NULL,
+				     !(cfg.flags & DIR_SCAN_NO_HARDLINKS));
 		sqfs_drop(dir);
 		if (ret != 0)
 			goto out;
